@@ -349,6 +349,12 @@ fn scenario(seed: u64, rep: &Report, dedicated: bool) -> Result<(), String> {
                 }
             }
         }
+        if !r.ok && std::env::var("PGV_DEBUG").is_ok() {
+            println!("==== failing exec {:?}\n{}", r, cell.pg().log_text());
+            for e in cell.log.snapshot() {
+                println!("{}", crate::evlog::render_event(&e, &labels));
+            }
+        }
         if !r.ok {
             rep.violation(
                 &format!("C08|execute_reply_wrong|op={}|cache_size_class={}|error={}", r.op, if cache == 1 { "1" } else if cache < 8 { "small" } else { "large" }, r.reply.split('[').nth(1).and_then(|x| x.split(' ').next()).unwrap_or("none")),
@@ -376,10 +382,14 @@ pub fn run(tier: &str) -> i32 {
     let thorough = rep.thorough();
     let n = if thorough { 4000 } else { 300 };
     let mut rng = Rng::new(rep.seed ^ 0xC08);
-    let seeds: Vec<u64> = (0..n).map(|_| rng.next()).collect();
+    let mut seeds: Vec<u64> = (0..n).map(|_| rng.next()).collect();
+    if let Ok(s) = std::env::var("PGV_C08_SEED") {
+        seeds = vec![s.parse().unwrap(); 40];
+    }
+    let n = seeds.len();
     run_parallel(n, workers(), |i| {
         rep.eval(1);
-        if let Err(e) = scenario(seeds[i], &rep, i % 10 == 9) {
+        if let Err(e) = scenario(seeds[i], &rep, i % 10 == 9 && std::env::var("PGV_C08_SEED").is_err()) {
             rep.inconclusive(&e);
         }
     });
